@@ -323,6 +323,7 @@ pub proof fn lemma_rt_seq_deep<V: RoundTrip>(vs: Seq<V>, pos: nat, rest: Seq<u8>
 //@  loop 1
 //@|        invariant
 //@|            backend.wf(),
+//@|            backend.fin_sink() == old(backend).fin_sink(), backend.fin_wf() == old(backend).fin_wf(),
 //@|            it.index@ <= data@.len(),
 //@|            sink0 == old(backend).sink(), pos0 == old(backend).wpos(), pos0 <= sink0.len(),
 //@|            total == enc_seq_deep(data@, pos0), head == usize_bytes(data@.len() as usize), head.len() == 8,
@@ -435,6 +436,7 @@ pub open spec fn enc_seq_zero<V: MaxSizeOf>(vs: Seq<V>, pos: nat) -> Seq<u8> {
 //@  spec
 //@|    requires old(backend).wf(), old(backend).sink().len() + bytes_of(*value).len() <= usize::MAX,
 //@|    ensures final(backend).wf(),
+//@|        final(backend).fin_sink() == old(backend).fin_sink(), final(backend).fin_wf() == old(backend).fin_wf(),
 //@|        match r {
 //@|            Ok(()) => final(backend).sink() =~= old(backend).sink() + bytes_of(*value)
 //@|                && final(backend).wpos() == old(backend).wpos() + bytes_of(*value).len(),
